@@ -12,3 +12,10 @@ Print Assumptions C20_file_rows_equal_text_rows.
 Theorem C20_load_equals_loads : forall bad s, plain (chars_of_string s) = true -> load_file bad s = loads bad s.
 Proof. exact load_equals_loads. Qed.
 Print Assumptions C20_load_equals_loads.
+
+From KV Require Import ReaderGen.
+Theorem C20_readers_as_modelled :
+  text_lines_expr = "text.splitlines()"%string /\ same_args text_reader_args modelled_reader_args = true /\
+  same_args file_reader_args modelled_reader_args = true /\ assoc_str "newline" file_open_args = Some "''"%string.
+Proof. exact readers_as_modelled. Qed.
+Print Assumptions C20_readers_as_modelled.
